@@ -522,6 +522,44 @@ Definition hdr_ok (h : header) : bool :=
   | Raise _ => false
   end.
 
+Section WF.
+  Variable L LL : nat.
+  Variable scw scr : dy.
+  (** the node list the reader holds after the VERTICES section *)
+  Definition cnodes_of (g : geo) : list node := map (canon_node L scw scr) (g_nodes g).
+  Definition cnames_of (g : geo) : list str := map (fun c => canon_name L (c_name c)) (g_cols g).
+  Definition wf_node (n : node) : bool := rec_ok "node" (node_vals scw n).
+  (** a column: the record and its node lines read back, the nodes exist, the re-read
+      polygon is not clockwise (column.__init__ would reverse it) *)
+  Definition wf_colnode (nnames : list str) (nm : str) : bool :=
+    rec_fields_ok "column_node" (colnode_vals nm) && mem_str (canon_name L nm) nnames.
+  Definition wf_col (cnodes : list node) (c : column) : bool :=
+    rec_ok "column" (column_vals scw c) &&
+    forallb (wf_colnode (map n_name cnodes)) (c_nodes c) &&
+    negb (area_neg (map (node_pos cnodes) (map (canon_name L) (c_nodes c)))).
+  Definition wf_con (cnames : list str) (c : str * str) : bool :=
+    rec_ok "connection" (con_vals c) && mem_str (canon_name L (fst c)) cnames && mem_str (canon_name L (snd c)) cnames.
+  Definition wf_lay (l : layer) : bool := rec_ok "layer" (layer_vals scw l).
+  Definition wf_surf (ns : str * dy) : bool := rec_ok "surface" (surf_vals scw (fst ns) (snd ns)).
+  Definition wf_wpt (np : str * pt3) : bool := rec_ok "well" (well_vals scw (fst np) (snd np)).
+  Definition wf_body (g : geo) : bool :=
+    (* nodes *)
+    forallb wf_node (g_nodes g) && nodup_str (map n_name (cnodes_of g)) &&
+    (* columns *)
+    forallb (wf_col (cnodes_of g)) (g_cols g) && nodup_str (cnames_of g) &&
+    (* connections *)
+    forallb (wf_con (cnames_of g)) (g_cons g) && nodup_pair (map (canon_con L) (g_cons g)) &&
+    (* layers: at least one (identify_layer_tops) *)
+    negb (match g_lays g with [] => true | _ => false end) &&
+    forallb wf_lay (g_lays g) && nodup_str (map (fun l => canon_name LL (l_name l)) (g_lays g)) &&
+    (* surface *)
+    forallb wf_surf (surf_cols (g_cols g)) &&
+    (* wells: every track point reads back, every well has a point, names distinct as written *)
+    forallb wf_wpt (well_points (g_wells g)) &&
+    forallb (fun w => negb (match w_pos w with [] => true | _ => false end)) (g_wells g) &&
+    nodup_str (map (fun w => canon_wname (w_name w)) (g_wells g)).
+End WF.
+
 Definition wf (g : geo) : bool :=
   let h := g_hdr g in
   hdr_ok h &&
@@ -530,32 +568,9 @@ Definition wf (g : geo) : bool :=
   | Ok scw =>
     let h' := canon_header h in
     if str_eqb (h_type h') (s2l supported_type) then
-      let scr := scale_or_one (h_unit h') in
-      let L := len_or_0 colname_lengths (h_conv h') in
-      let LL := len_or_0 layername_lengths (h_conv h') in
-      let cnodes := map (canon_node L scw scr) (g_nodes g) in
-      let nnames := map n_name cnodes in
-      let cnames := map (fun c => canon_name L (c_name c)) (g_cols g) in
-      (* nodes *)
-      forallb (fun n => rec_ok "node" (node_vals scw n)) (g_nodes g) && nodup_str nnames &&
-      (* columns: the record and its node lines read back, the nodes exist, the re-read
-         polygon is not clockwise (column.__init__ would reverse it) *)
-      forallb (fun c => rec_ok "column" (column_vals scw c) &&
-                        forallb (fun nm => rec_fields_ok "column_node" (colnode_vals nm) && mem_str (canon_name L nm) nnames) (c_nodes c) &&
-                        negb (area_neg (map (node_pos cnodes) (map (canon_name L) (c_nodes c))))) (g_cols g) &&
-      nodup_str cnames &&
-      (* connections *)
-      forallb (fun c => rec_ok "connection" (con_vals c) && mem_str (canon_name L (fst c)) cnames && mem_str (canon_name L (snd c)) cnames) (g_cons g) &&
-      nodup_pair (map (canon_con L) (g_cons g)) &&
-      (* layers: at least one (identify_layer_tops) *)
-      negb (match g_lays g with [] => true | _ => false end) &&
-      forallb (fun l => rec_ok "layer" (layer_vals scw l)) (g_lays g) &&
-      nodup_str (map (fun l => canon_name LL (l_name l)) (g_lays g)) &&
-      (* surface *)
-      forallb (fun ns => rec_ok "surface" (surf_vals scw (fst ns) (snd ns))) (surf_cols (g_cols g)) &&
-      (* wells: every track point reads back, every well has a point, names distinct as written *)
-      forallb (fun np => rec_ok "well" (well_vals scw (fst np) (snd np))) (well_points (g_wells g)) &&
-      forallb (fun w => negb (match w_pos w with [] => true | _ => false end)) (g_wells g) &&
-      nodup_str (map (fun w => canon_wname (w_name w)) (g_wells g))
+      match conv_len colname_lengths (h_conv h'), conv_len layername_lengths (h_conv h'), unit_scale_of (h_unit h') with
+      | Ok L, Ok LL, Ok scr => wf_body L LL scw scr g
+      | _, _, _ => false
+      end
     else true
   end.
